@@ -394,6 +394,22 @@ func c03Absent(res *core.Result, text, shape, keyName string) {
 			m[p.k] = p.v
 			entries = append(entries, ref.FlatEntry{Key: p.k, Val: reflect.ValueOf(p.v)})
 		}
+		if shape == "absent" || shape == "absent-among-others" {
+			// a slice of two maps: the key is present (non-empty) in the FIRST element and missing in
+			// the second — each element is judged on its own
+			first := map[string]string{keyName: "ab", "b": "x"}
+			in2 := []map[string]string{first, m}
+			env := &ref.Env{}
+			env.Begin()
+			e0 := []ref.FlatEntry{{Key: keyName, Val: reflect.ValueOf("ab")}, {Key: "b", Val: reflect.ValueOf("x")}}
+			env.ExpectFlat(e0, rules, func(k string) string { return "[0]map[" + k + "]" }, "[0]", true, []ref.OrdKey{{N: 0}})
+			env.ExpectFlat(entries, rules, func(k string) string { return "[1]map[" + k + "]" }, "[1]", true, []ref.OrdKey{{N: 1}})
+			exps := env.Finish()
+			out := drive.Call(func() error { return valid.Map(in2, rm) })
+			if judged, _ := compareCall(res, "C03|map-keys", shape+"|second-of-two"+c03KeyClass(keyName), out, exps, false, env, true, vWitness{Entry: "Map", Value: fmt.Sprint(in2), Rules: rules}); judged {
+				res.DistinctEnum(1)
+			}
+		}
 		for _, slice := range []bool{false, true} {
 			env := &ref.Env{}
 			env.Begin()
